@@ -12,12 +12,23 @@ as itself.
 namespace MakoModel.Codegen
 open MakoModel.Target
 
-/-- a token list consisting of text tokens, as a template -/
+/-- does the code generator emit nothing for this token?  Backslash-newline (`cont`), comments (`##` lines and
+    `<%doc>` sections: `parsetree.Comment` has no visitor), and the tags of an unfiltered `<%text>`
+    (`visitTextTag` without `filter=` only visits the body, which is a text token of its own) -/
+def silentPayload : Lexer.Payload → Bool
+  | .cont => true
+  | .comment _ => true
+  | .tagOpen kw attrs _ => kw == Lexer.lit "text" && attrs.isEmpty
+  | .tagClose kw => kw == Lexer.lit "text"
+  | _ => false
+
+/-- a token list consisting of text tokens and silent tokens (literal text and the documented escapes), as a
+    template; `none` for every other token kind -/
 def tmplOfTokens : List Lexer.Token → Option Tmpl
   | [] => some .nil
   | t :: ts => match t.payload with
     | .text s => (tmplOfTokens ts).map (.seq (.text s) ·)
-    | _ => none
+    | p => if silentPayload p then (tmplOfTokens ts).map (.seq .nil ·) else none
 
 /-- the contents of the text tokens, in order -/
 def textsOf : List Lexer.Token → Str
@@ -48,20 +59,36 @@ theorem tmplOfTokens_textOnly : ∀ (toks : List Lexer.Token) (t : Tmpl), tmplOf
   | nil => intro t h; simp only [tmplOfTokens, Option.some.injEq] at h; subst h; simp [TextOnly, textOf, textsOf, textDepth]
   | cons tok ts ih =>
     intro t h
+    have step : ∀ (hd : Tmpl) (c : Str), TextOnly hd = true → textOf hd = c → textDepth hd = 2 →
+        (match tok.payload with | .text s => s | _ => []) = c →
+        (tmplOfTokens ts).map (.seq hd ·) = some t →
+        TextOnly t = true ∧ textOf t = textsOf (tok :: ts) ∧ textDepth t ≤ 2 + (tok :: ts).length := by
+      intro hd c h1 h2 h3 h4 h5
+      cases hts : tmplOfTokens ts with
+      | none => simp [hts] at h5
+      | some t' =>
+        simp only [hts, Option.map_some, Option.some.injEq] at h5
+        subst h5
+        obtain ⟨i1, i2, i3⟩ := ih t' hts
+        refine ⟨by simp [TextOnly, h1, i1], by simp [textOf, textsOf, h2, h4, i2], ?_⟩
+        simp only [textDepth, List.length_cons, h3]
+        omega
     simp only [tmplOfTokens] at h
     cases hp : tok.payload with
-    | text s =>
+    | text s => simp only [hp] at h; exact step (.text s) s rfl rfl rfl (by simp [hp]) h
+    | cont => simp only [hp, silentPayload, if_true] at h; exact step .nil [] rfl rfl rfl (by simp [hp]) h
+    | comment c => simp only [hp, silentPayload, if_true] at h; exact step .nil [] rfl rfl rfl (by simp [hp]) h
+    | tagOpen kw attrs sc =>
       simp only [hp] at h
-      cases hts : tmplOfTokens ts with
-      | none => simp [hts] at h
-      | some t' =>
-        simp only [hts, Option.map_some, Option.some.injEq] at h
-        subst h
-        obtain ⟨h1, h2, h3⟩ := ih t' hts
-        refine ⟨by simp [TextOnly, h1], by simp [textOf, textsOf, hp, h2], ?_⟩
-        simp only [textDepth, List.length_cons]
-        omega
-    | _ => simp [hp] at h
+      split at h
+      · exact step .nil [] rfl rfl rfl (by simp [hp]) h
+      · cases h
+    | tagClose kw =>
+      simp only [hp] at h
+      split at h
+      · exact step .nil [] rfl rfl rfl (by simp [hp]) h
+      · cases h
+    | _ => simp [hp, silentPayload] at h
 
 /-- the statements generated for a text-only template append its text to the buffer the writer denotes;
     nothing else changes (no evaluation point: the crash point is irrelevant) -/
@@ -205,5 +232,36 @@ theorem render_text_tokens_core (toks : List Lexer.Token) (t : Tmpl) (h : tmplOf
   have := render_textOnly ts k t ieh h1 o fuel (by omega)
   rw [h2] at this
   exact this
+
+/-- every token is literal text or one of the silent tokens of the documented escapes -/
+def EscapeOnly (toks : List Lexer.Token) : Bool :=
+  toks.all fun t => match t.payload with
+    | .text _ => true
+    | p => silentPayload p
+
+theorem tmplOfTokens_of_escapeOnly : ∀ toks : List Lexer.Token, EscapeOnly toks = true → ∃ t, tmplOfTokens toks = some t := by
+  intro toks
+  induction toks with
+  | nil => intro _; exact ⟨.nil, rfl⟩
+  | cons tok ts ih =>
+    intro h
+    simp only [EscapeOnly, List.all_cons, Bool.and_eq_true] at h
+    obtain ⟨t', ht'⟩ := ih h.2
+    have h1 := h.1
+    cases hp : tok.payload with
+    | text s => exact ⟨.seq (.text s) t', by simp [tmplOfTokens, hp, ht']⟩
+    | cont => exact ⟨.seq .nil t', by simp [tmplOfTokens, hp, ht', silentPayload]⟩
+    | comment c => exact ⟨.seq .nil t', by simp [tmplOfTokens, hp, ht', silentPayload]⟩
+    | tagOpen kw attrs sc =>
+      simp only [hp] at h1
+      exact ⟨.seq .nil t', by simp only [tmplOfTokens, hp, h1, if_true, ht', Option.map_some]⟩
+    | tagClose kw =>
+      simp only [hp] at h1
+      exact ⟨.seq .nil t', by simp only [tmplOfTokens, hp, h1, if_true, ht', Option.map_some]⟩
+    | expr a b => simp [hp, silentPayload] at h1
+    | ctl a b c => simp [hp, silentPayload] at h1
+    | code a b => simp [hp, silentPayload] at h1
+    | coding => simp [hp, silentPayload] at h1
+    | skipped => simp [hp, silentPayload] at h1
 
 end MakoModel.Codegen
